@@ -63,56 +63,76 @@ def collect(res, groups, tables):
         g['outcomes'][json.dumps([r['stage'], r['asg'], r['mode'], r['bad'], r['badsh']], sort_keys=True)] = r
 
 
-def sim_module(tag, body):
+def _module(tag, body):
+    """generated module MCSubstX: VFFamilies == body"""
     p = os.path.join(tlc.workdir(tag + '-defs'), 'MCSubstX.tla')
     with open(p, 'w') as f:
         f.write('---- MODULE MCSubstX ----\nEXTENDS MCSubst\nVFFamilies == ' + body + '\n====\n')
     return p
 
 
+# the machine is shared: several small JVMs (few workers, few GC threads) in parallel beat one JVM with 16 workers
+JVM = dict(JAVA_TOOL_OPTIONS='-XX:ParallelGCThreads=2 -XX:CICompilerCount=2')
+
+
+def _tlc_job(job):
+    name, body, cfgkw, kw = job
+    return name, tlc.run('MCSubstX', cfg_text=_cfg('VFFamilies', **cfgkw), tag='c13-' + name, deadlock=False, env=JVM,
+                         extra_modules=[_module('c13-' + name, body)], **kw)
+
+
 def run(rep):
+    import concurrent.futures
     rng = random.Random(rep.seed)
     quick = rep.tier == 'quick'
     tables = {}
+    famlist = 'QuickFamilies' if quick else 'ThoroughFamilies'
+    nfam = 5
+    nsimfam = 4
+    jobs = []
+    # 1. design spec, exhaustive over small vocabularies (one TLC process per vocabulary), with per-action coverage
+    for i in range(1, nfam + 1):
+        jobs.append(('exh{}'.format(i), '<< {}[{}] >>'.format(famlist, i), {}, dict(workers=2 if quick else 4, coverage=True, timeout=300 if quick else 2400)))
+    # 2. spec mutants: each must violate its lemma
+    for name, inv in MUTANTS.items():
+        jobs.append(('mutant-' + name, 'MutantFamilies', dict(mutant=name, invariants=[inv], emit=False), dict(workers=1, timeout=600)))
+    # 3. deeper behaviours by simulation
+    nsim = 100 if quick else 2500
+    for i in range(1, nsimfam + 1):
+        jobs.append(('sim{}'.format(i), '<< SimFamilies[{}] >>'.format(i), {}, dict(workers=1, simulate=dict(num=nsim), depth=16, seed=rep.seed + 13 + i, timeout=240 if quick else 900)))
+    with concurrent.futures.ThreadPoolExecutor(max_workers=8 if quick else 6) as pool:
+        results = dict(pool.map(_tlc_job, jobs))
+    rep.lap('TLC: {} runs'.format(len(jobs)))
 
-    # ---- 1. design spec, exhaustive small vocabularies (with per-action coverage: vacuity guard)
-    exh = {}
-    res = tlc.run('MCSubst', cfg_text=_cfg('QuickFamilies' if quick else 'ThoroughFamilies'), tag='c13-exh', deadlock=False, coverage=True,
-                  timeout=240 if quick else 1500)
-    if res.violated:
-        raise tlc.TLCError('Subst: model-internal lemma {} violated (the model is wrong):\n{}'.format(res.violated, '\n'.join(res.error_trace[:80])))
-    rep.add_tlc(res, exhaustive=True)
-    missing = [a for a in ACTIONS if res.coverage.get(a, (0, 0))[1] == 0]
+    exh, sim, mut = {}, {}, {}
+    coverage = collections.Counter()
+    for name, res in results.items():
+        if name.startswith('mutant-'):
+            m = name[len('mutant-'):]
+            mut[m] = res.violated
+            rep.tlc_cmds.append('spec mutant {}: {} violated after {} states'.format(m, res.violated, res.distinct or res.generated))
+            if res.violated != MUTANTS[m]:
+                raise RuntimeError('spec mutant {} does not violate {} (got {}): the lemma is vacuous'.format(m, MUTANTS[m], res.violated))
+            continue
+        if res.violated:
+            raise tlc.TLCError('Subst ({}): model-internal lemma {} violated (the model is wrong):\n{}'.format(name, res.violated, '\n'.join(res.error_trace[:80])))
+        rep.add_tlc(res, exhaustive=name.startswith('exh'))
+        tgt = exh if name.startswith('exh') else sim
+        before = set(tgt)
+        collect(res, tgt, tables)
+        for k in set(tgt) - before:
+            tgt[k]['fam'] = name
+        if name.startswith('exh'):
+            for a, (d, t) in res.coverage.items():
+                coverage[a] += t
+    rep.exhaustive = False   # the simulation runs are not exhaustive; the exhN runs are (see tlc_cmds)
+    rep.extra['spec_mutants'] = mut
+    missing = [a for a in ACTIONS if coverage.get(a, 0) == 0]
     if missing:
         raise RuntimeError('vacuous: actions never taken: {}'.format(missing))
-    collect(res, exh, tables)
-    rep.lap('exhaustive TLC')
-
-    # ---- 2. spec mutants: each must violate its lemma
-    mut = {}
-    for name, inv in MUTANTS.items():
-        r = tlc.run('MCSubst', cfg_text=_cfg('MutantFamilies', mutant=name, invariants=[inv], emit=False), tag='c13-mutant-' + name,
-                    deadlock=False, timeout=300)
-        mut[name] = r.violated
-        rep.tlc_cmds.append('spec mutant {}: {} violated'.format(name, r.violated))
-        if r.violated != inv:
-            raise RuntimeError('spec mutant {} does not violate {} (got {}): the lemma is vacuous'.format(name, inv, r.violated))
-    rep.extra['spec_mutants'] = mut
-    rep.lap('spec mutants')
-
-    # ---- 3. deeper behaviours by simulation
-    sim = {}
-    nsim = 400 if quick else 6000
-    r = tlc.run('MCSubstX', cfg_text=_cfg('VFFamilies'), tag='c13-sim', deadlock=False, workers=1 if quick else None,
-                simulate=dict(num=nsim), depth=14, seed=rep.seed + 13, extra_modules=[sim_module('c13-sim', 'SimFamilies')],
-                timeout=120 if quick else 600)
-    if r.violated:
-        raise tlc.TLCError('Subst (simulation): model-internal lemma {} violated:\n{}'.format(r.violated, '\n'.join(r.error_trace[:80])))
-    rep.add_tlc(r, exhaustive=False)
-    collect(r, sim, tables)
-    rep.lap('simulation TLC')
     if not tables:
         raise RuntimeError('the tables were not emitted')
+    res = r = None
 
     # ---- 4. selection of the groups (program + all predicted outcomes) to replay
     budget = 2600 if quick else 30000
@@ -134,7 +154,7 @@ def run(rep):
                          exhaustive_outcomes=sum(len(g['outcomes']) for g in exh.values()))
     # quick: the baseline spelling plus two rotating other spellings per program; thorough: every spelling for every program
     items = [(tables, g['prog'], list(g['outcomes'].values()), [2 * i, 2 * i + 1] if quick else None) for i, g in enumerate(sel)]
-    del exh, sim, egroups, sgroups, byfam, res, r
+    del exh, sim, egroups, sgroups, byfam, results
     import gc
     cr.warm()
     gc.collect()
